@@ -30,6 +30,10 @@ type Solver struct {
 	timeNs                       int64
 	timeoutMs                    int
 	scopes                       int
+	transcript                   []string // declarations, definitions, assertions of the current scope
+	lastLits                     []string
+	lastOneShot                  bool
+	nOneShot                     int
 }
 
 func solverArgv(name string) []string {
@@ -72,11 +76,15 @@ func (s *Solver) start() {
 	s.declared = map[string]bool{}
 	s.inScope = false
 	s.send("(set-option :produce-models true)")
+	inc := s.timeoutMs
+	if inc > 4000 {
+		inc = 4000 // incremental mode gets a short budget; hard queries are retried one-shot
+	}
 	if strings.HasPrefix(s.name, "z3") {
-		s.send(fmt.Sprintf("(set-option :timeout %d)", s.timeoutMs))
+		s.send(fmt.Sprintf("(set-option :timeout %d)", inc))
 	} else {
 		s.send("(set-logic ALL)")
-		s.send(fmt.Sprintf("(set-option :tlimit-per %d)", s.timeoutMs))
+		s.send(fmt.Sprintf("(set-option :tlimit-per %d)", inc))
 	}
 }
 
@@ -92,6 +100,9 @@ func (s *Solver) Close() {
 func (s *Solver) send(line string) {
 	if s.log != nil {
 		fmt.Fprintln(s.log, line)
+	}
+	if strings.HasPrefix(line, "(declare-const") || strings.HasPrefix(line, "(define-fun") || strings.HasPrefix(line, "(assert") {
+		s.transcript = append(s.transcript, line)
 	}
 	if _, err := io.WriteString(s.in, line+"\n"); err != nil {
 		panic(engineError{"solver write: " + err.Error()})
@@ -118,6 +129,7 @@ func (s *Solver) Begin() {
 		s.start()
 	}
 	s.send("(push 1)")
+	s.transcript = s.transcript[:0]
 	s.inScope = true
 	s.defined = map[int]bool{}
 	s.declared = map[string]bool{}
@@ -217,6 +229,25 @@ func (s *Solver) Check(assumps ...*Term) Verdict {
 		s.send("(check-sat-assuming (" + strings.Join(lits, " ") + "))")
 	}
 	res := s.readLine()
+	s.lastLits = lits
+	s.lastOneShot = false
+	if res == "unknown" || res == "timeout" {
+		// retry outside incremental mode: a fresh process on the whole scope gets
+		// the solver's full preprocessing
+		v, _ := s.oneShot(lits, nil)
+		s.timeNs += time.Since(t0).Nanoseconds()
+		s.lastOneShot = true
+		s.nOneShot++
+		switch v {
+		case vSat:
+			s.nSat++
+		case vUnsat:
+			s.nUnsat++
+		default:
+			s.nUnknown++
+		}
+		return v
+	}
 	s.timeNs += time.Since(t0).Nanoseconds()
 	switch res {
 	case "sat":
@@ -225,9 +256,6 @@ func (s *Solver) Check(assumps ...*Term) Verdict {
 	case "unsat":
 		s.nUnsat++
 		return vUnsat
-	case "unknown", "timeout":
-		s.nUnknown++
-		return vUnknown
 	}
 	s.nErr++
 	panic(engineError{"solver said: " + res})
@@ -241,6 +269,10 @@ func (s *Solver) Values(ts []*Term) []modelVal {
 	var refs []string
 	for _, t := range ts {
 		refs = append(refs, s.define(t))
+	}
+	if s.lastOneShot {
+		_, txt := s.oneShot(s.lastLits, refs)
+		return s.parseValues(txt, ts)
 	}
 	s.send("(get-value (" + strings.Join(refs, " ") + "))")
 	// read a balanced s-expression
@@ -266,7 +298,59 @@ func (s *Solver) Values(ts []*Term) []modelVal {
 			break
 		}
 	}
-	txt := sb.String()
+	return s.parseValues(sb.String(), ts)
+}
+
+// oneShot solves the current scope plus lits in a fresh solver process.
+func (s *Solver) oneShot(lits []string, want []string) (Verdict, string) {
+	var sb strings.Builder
+	sb.WriteString("(set-option :produce-models true)\n")
+	if !strings.HasPrefix(s.name, "z3") {
+		sb.WriteString("(set-logic ALL)\n")
+	}
+	for _, l := range s.transcript {
+		sb.WriteString(l)
+		sb.WriteByte('\n')
+	}
+	for _, l := range lits {
+		sb.WriteString("(assert " + l + ")\n")
+	}
+	sb.WriteString("(check-sat)\n")
+	if len(want) > 0 {
+		sb.WriteString("(get-value (" + strings.Join(want, " ") + "))\n")
+	}
+	argv := append([]string{}, s.argv...)
+	if strings.HasPrefix(s.name, "z3") {
+		argv = append(argv, fmt.Sprintf("-T:%d", (s.timeoutMs+999)/1000))
+	} else {
+		// drop --incremental for the one-shot run
+		var a2 []string
+		for _, a := range argv {
+			if a != "--incremental" {
+				a2 = append(a2, a)
+			}
+		}
+		argv = append(a2, fmt.Sprintf("--tlimit=%d", s.timeoutMs))
+	}
+	cmd := exec.Command(argv[0], argv[1:]...)
+	cmd.Stdin = strings.NewReader(sb.String())
+	out, _ := cmd.Output()
+	txt := string(out)
+	first := txt
+	rest := ""
+	if i := strings.IndexByte(txt, '\n'); i >= 0 {
+		first, rest = txt[:i], txt[i+1:]
+	}
+	switch strings.TrimSpace(first) {
+	case "sat":
+		return vSat, rest
+	case "unsat":
+		return vUnsat, rest
+	}
+	return vUnknown, rest
+}
+
+func (s *Solver) parseValues(txt string, ts []*Term) []modelVal {
 	if strings.HasPrefix(strings.TrimSpace(txt), "(error") {
 		panic(engineError{"solver get-value: " + txt})
 	}
